@@ -31,6 +31,7 @@ def axes(nd, tuples=False):
     out = [None] + list(range(-nd, nd))
     if tuples and nd >= 2:
         out += list(itertools.combinations(range(nd), 2))
+        out += [(a, b - nd) for a, b in itertools.combinations(range(nd), 2)]
     return out
 
 
@@ -60,8 +61,22 @@ def table():
     for nm in ("add", "subtract", "multiply", "equal", "not_equal", "greater", "greater_equal", "less", "less_equal",
                "maximum", "minimum", "logical_and", "logical_or"):
         binary(nm)
+    def float_division(nm):
+        # binary fractions hide rounding: 1.0 // 0.1 is 9.0 (the remainder is just below 0.1), not floor(1.0 / 0.1) = 10.0
+        def mk(r):
+            if r.random() < .35:
+                sa, sb = gen.gen_shape_pair(r)
+                k = gen.choice(r, ["int", "float"])
+                a, b = arr(r, sa, k), arr(r, sb, k)
+                b = numpy.where(b == 0, 2 if k == "int" else 1.5, b)
+                return [a, b], lambda M, x, y: getattr(M, nm)(x, y), {}, []
+            sh = gen.choice(r, [(), (3,), (4,), (2, 2), (2, 3)])
+            a = r.choice([1.0, 0.7, 2.0, -1.0, 0.3, 4.9, -0.7], size=sh)
+            b = r.choice([0.1, 0.3, 0.7, -0.1, 0.2], size=sh if r.random() < .5 else ())
+            return [numpy.asarray(a), numpy.asarray(b)], lambda M, x, y: getattr(M, nm)(x, y), {"values": "decimal fractions"}, []
+        T[nm] = mk
     for nm in ("floor_divide", "divide", "remainder", "divmod"):
-        binary(nm, None, True)
+        float_division(nm)
 
     def closeness(nm):
         # tolerances given positionally (numpy's order: rtol, atol), by keyword, or left out; values chosen so that the
@@ -70,6 +85,16 @@ def table():
             sa, sb = gen.gen_shape_pair(r)
             if r.random() < .7:
                 sb = sa
+            if r.random() < .3:
+                # integers that differ but lie within the tolerance (large ones under the defaults, small ones with atol >= 1)
+                big = r.random() < .5
+                a = r.integers(100000, 3000000, size=sa) if big else r.integers(-5, 6, size=sa)
+                b = (a if sb == sa else (r.integers(100000, 3000000, size=sb) if big else r.integers(-5, 6, size=sb))) + r.integers(0, 3, size=sb)
+                rtol, atol = [(1e-5, 1e-8), (0.0, 1.0), (0.0, 2.5), (0.5, 0.0)][int(r.integers(4))] if not big else (1e-5, 1e-8)
+                how = "default" if big else gen.choice(r, ["positional", "keyword"])
+                f = {"default": lambda M, x, y: getattr(M, nm)(x, y), "positional": lambda M, x, y: getattr(M, nm)(x, y, rtol, atol),
+                     "keyword": lambda M, x, y: getattr(M, nm)(x, y, rtol=rtol, atol=atol)}[how]
+                return [numpy.asarray(a), numpy.asarray(b)], f, {"rtol": rtol, "atol": atol, "how": how, "values": "integers"}, []
             a = arr(r, sa, "float") * 2.0
             b = (a if sb == sa else arr(r, sb, "float") * 2.0) + r.choice([0.0, 0.05, 0.25, -0.25, 0.5], size=sb)
             rtol, atol = [(0.3, 0.05), (0.05, 0.3), (0.0, 0.25), (0.25, 0.0)][int(r.integers(4))]
@@ -95,7 +120,8 @@ def table():
             kw = {} if ax is None else {"axis": ax}
             if keepdims and r.random() < .4:
                 kw["keepdims"] = True
-            tags = (["axis"] if ax is not None else []) + (["keepdims"] if kw.get("keepdims") else []) + (["axis-tuple"] if isinstance(ax, tuple) else [])
+            tags = (["axis"] if ax is not None else []) + (["keepdims"] if kw.get("keepdims") else []) + \
+                (["axis-tuple", "axis-tuple-keepdims" if kw.get("keepdims") else "axis-tuple-nokeepdims"] if isinstance(ax, tuple) else [])
             return [arr(r, sh, kind, lo=-2, hi=2)], lambda M, a: getattr(M, nm)(a, **kw), kw, tags
         T[nm] = mk
     for nm in ("sum", "mean", "all", "any", "amax", "amin", "max", "min", "count_nonzero"):
@@ -246,7 +272,7 @@ def run_reduction_grid(ctx, monitor):
                 for keep in ([False, True] if kd else [False]):
                     kw = ({} if ax is None else {"axis": ax}) | ({"keepdims": True} if keep else {})
                     tags = [f"fn:{nm}", "grid"] + (["axis"] if ax is not None else []) + (["keepdims"] if keep else []) + \
-                        (["axis-tuple"] if isinstance(ax, tuple) else []) + \
+                        (["axis-tuple", "axis-tuple-keepdims" if keep else "axis-tuple-nokeepdims"] if isinstance(ax, tuple) else []) + \
                         (["extreme-with-axis"] if nm in ("amax", "amin", "max", "min") and ax is not None else [])
                     case = {"kind": "const", "function": nm, "arrays": [a.tolist()], "dtypes": [str(a.dtype)],
                             "args": {k: (list(v) if isinstance(v, tuple) else v) for k, v in kw.items()}, "grid": True}
